@@ -9,6 +9,12 @@
 //!   parse-xml<TAB>opts<TAB>chunk|chunk…    `TracingSink<RcDom>` and print the op trace
 //!                              (`trace@V=<op index>:CONTRACT-VIOLATION <which>|…`).
 //!                              opts: `-` or comma list of `s1` (scripting on), `frag=<hex local name>`.
+//!   gc-html<TAB>opts<TAB>chunk|chunk…      C18: the same parses with a simulated collection at every
+//!   gc-xml<TAB>opts<TAB>chunk|chunk…       chunk boundary and every Script / EncodingIndicator pause:
+//!                              the real `trace_handles` supplies the roots, every node not connected
+//!                              to one is poisoned, later use of a poisoned handle is reported
+//!                              (`gc=<collections>,traced=<handles reported>,poisoned=<nodes>,nodes=<handles>@P=…`);
+//!                              extra opt `droplast` = self-test: the last reported handle is ignored.
 use crate::proto::*;
 use crate::sinkops::*;
 use html5ever::tendril::TendrilSink;
@@ -553,8 +559,131 @@ fn harvest(xml: bool, opts: &str, chunks: &str) -> String {
     }
 }
 
+// ------------------------------------------------------------------ C18: simulated collections
+
+struct GcStats {
+    collections: usize,
+    traced: usize,
+}
+
+fn show_gc(sink: &TS, st: &GcStats) -> String {
+    let hits = sink.poison_hits.borrow();
+    let p = if hits.is_empty() {
+        "-".to_string()
+    } else {
+        hits.iter()
+            .map(|(i, w)| format!("{}:POISONED-HANDLE-USED {}", i, w))
+            .collect::<Vec<_>>()
+            .join("|")
+    };
+    let v = sink.violations.borrow();
+    format!(
+        "gc={},traced={},poisoned={},nodes={},calls={}@P={}@V={}",
+        st.collections,
+        st.traced,
+        sink.poisoned.borrow().iter().filter(|&&b| b).count(),
+        sink.number_of_handles(),
+        sink.trace.borrow().len(),
+        p,
+        if v.is_empty() { "-".to_string() } else { format!("{}", v.len()) }
+    )
+}
+
+fn gc_run(xml: bool, opts: &str, chunks: &str) -> String {
+    let chunks = match parse_chunks(chunks) {
+        Some(c) => c,
+        None => return "bad-case".into(),
+    };
+    let mut scripting = false;
+    let mut frag: Option<String> = None;
+    // self-test of the oracle: pretend `trace_handles` forgot the handle it reports last
+    let mut drop_last = false;
+    if opts != "-" {
+        for o in opts.split(',') {
+            if o == "s1" {
+                scripting = true;
+            } else if o == "droplast" {
+                drop_last = true;
+            } else if let Some(x) = o.strip_prefix("frag=") {
+                match parse_string(x) {
+                    Some(n) => frag = Some(n),
+                    None => return "bad-case".into(),
+                }
+            } else {
+                return "bad-case".into();
+            }
+        }
+    }
+    let sink: TS = TracingSink::new(RcDom::default(), true);
+    let mut st = GcStats {
+        collections: 0,
+        traced: 0,
+    };
+    if xml {
+        let p = xml5ever::driver::parse_document(sink, Default::default());
+        for c in &chunks {
+            p.input_buffer.push_back(StrTendril::from_slice(c));
+            let _ = p.tokenizer.feed(&p.input_buffer);
+            let tr: IdTracer<Handle> = IdTracer::default();
+            p.tokenizer.sink.trace_handles(&tr);
+            let mut roots = tr.ids.borrow().clone();
+            if drop_last {
+                roots.pop();
+            }
+            st.collections += 1;
+            st.traced += roots.len();
+            p.tokenizer.sink.sink.collect(&roots);
+        }
+        p.tokenizer.end();
+        show_gc(&p.tokenizer.sink.sink, &st)
+    } else {
+        let mut o = html5ever::ParseOpts::default();
+        o.tree_builder.scripting_enabled = scripting;
+        let p = match frag {
+            None => html5ever::parse_document(sink, o),
+            Some(ctx) => html5ever::parse_fragment(
+                sink,
+                o,
+                QualName::new(None, ns!(html), LocalName::from(&*ctx)),
+                vec![],
+                scripting,
+            ),
+        };
+        let collect = |extra: Option<usize>, st: &mut GcStats| {
+            let tr: IdTracer<Handle> = IdTracer::default();
+            p.tokenizer.sink.trace_handles(&tr);
+            let mut roots = tr.ids.borrow().clone();
+            if drop_last {
+                roots.pop();
+            }
+            st.traced += roots.len();
+            // the node handed to the embedder with a `Script` result is held by the embedder
+            if let Some(x) = extra {
+                roots.push(x);
+            }
+            st.collections += 1;
+            p.tokenizer.sink.sink.collect(&roots);
+        };
+        for c in &chunks {
+            p.input_buffer.push_back(StrTendril::from_slice(c));
+            loop {
+                match p.tokenizer.feed(&p.input_buffer) {
+                    markup5ever::TokenizerResult::Done => break,
+                    markup5ever::TokenizerResult::Script(h) => collect(Some(h.id), &mut st),
+                    markup5ever::TokenizerResult::EncodingIndicator(_) => collect(None, &mut st),
+                }
+            }
+            collect(None, &mut st);
+        }
+        p.tokenizer.end();
+        show_gc(&p.tokenizer.sink.sink, &st)
+    }
+}
+
 pub fn run(fields: &[&str]) -> String {
     match fields {
+        ["gc-html", opts, chunks] => gc_run(false, opts, chunks),
+        ["gc-xml", opts, chunks] => gc_run(true, opts, chunks),
         ["ops", ops] => replay(ops),
         ["parse-html", opts, chunks] => harvest(false, opts, chunks),
         ["parse-xml", opts, chunks] => harvest(true, opts, chunks),
